@@ -188,6 +188,29 @@ def filter_case(case):
     try:
         repo, marks = build_repo(case, root)
         aux = write_aux(case, root, marks)
+        extra_cli = []
+        if case['mode'] == 'rules' and head_of(repo) and head_of(repo) in refs(repo):
+            # the places the quantifier of C07 names: a stash, a commit that survives only in a reflog, a foreign
+            # remote-tracking ref, loose objects; default cleanup and --sensitive
+            lits = [l.split(b'==>')[0] for l in unhex(case.get('blob_rules_hex') or '.').split(b'\n')
+                    if l and not l.startswith((b'#', b'regex:', b'glob:')) and l.split(b'==>')[0]]
+            lit = (lits[0] if lits else b'no-literal') + b'\n'
+            shq = lambda d, sc: subprocess.run(['bash', '-c', sc], cwd=d, env=GIT_ENV, stdout=subprocess.DEVNULL, stderr=subprocess.DEVNULL)
+            open(os.path.join(root, 'lit'), 'wb').write(b'planted ' + lit)
+            kind = case['id'] % 5
+            if kind == 1:
+                shq(repo, 'git reset -q --hard; cp ../lit zz-stashed.txt; git add zz-stashed.txt; git stash -q'); count('c07-secret-in-stash')
+            elif kind == 2:
+                shq(repo, 'git reset -q --hard; cp ../lit zz-amended.txt; git add zz-amended.txt; git commit -q -m with-secret; git rm -q --cached zz-amended.txt; rm zz-amended.txt; echo clean > zz-clean.txt; git add zz-clean.txt; git commit -q --amend -m amended')
+                count('c07-secret-only-in-reflog')
+            elif kind == 3:
+                shq(repo, 'git reset -q --hard; b=$(git hash-object -w ../lit); t=$(printf "100644 blob %s\\tzz-remote.txt\\n" $b | git mktree); c=$(git commit-tree $t -p HEAD -m remote-only </dev/null); git update-ref refs/remotes/up/topic $c')
+                count('c07-secret-on-foreign-remote-ref')
+            elif kind == 4:
+                shq(repo, 'git reset -q --hard; b=$(git hash-object -w ../lit); t=$(printf "100644 blob %s\\tzz-tagonly.txt\\n" $b | git mktree); c=$(git commit-tree $t -m tag-only </dev/null); git tag zz-lw $c')
+                count('c07-secret-on-tag-only-commit')
+            if case['id'] % 3 == 2:
+                extra_cli = ['--sensitive', '--no-fetch']; count('c07-sensitive-mode')
         if case['id'] % 4 == 1:
             # a repository copied from a case-insensitive platform keeps core.ignorecase=true in its own config
             git(repo, 'config', 'core.ignorecase', 'true')
@@ -196,7 +219,7 @@ def filter_case(case):
         before_head = head_of(repo)
         s_before = export(repo)
         cli = [a.replace('@AUX@', aux) for a in case['cli']]
-        rc, out, err, dt = run_tool(repo, ['--force'] + cli)
+        rc, out, err, dt = run_tool(repo, ['--force'] + extra_cli + cli)
         res['tool_rc'] = rc
         # guards of the claims, from the model
         opts = case['model_opts']
